@@ -38,6 +38,7 @@ type chanM struct {
 	repl       int
 	refreshing bool
 	k          [2]int           // refreshes since last response (variant A: swap counts as response boundary, B: it does not)
+	kLo        [2]int           // least value k may have: below k only after a response that overlapped a takeover (either order is legal)
 	lastResp   [2]time.Duration // A / B readings of "last response"
 	de         [2]int
 	created    time.Duration
@@ -226,7 +227,8 @@ func (m *Model) v(prop, rule, facts, msg string, op int) {
 		!burst && prop == "C20" && (rule == "replacement-stale-addrs" || rule == "new-conn-stale-addrs") ||
 		prop == "C03" && rule == "growth-while-pending" ||
 		!burst && prop == "C08" && rule == "stand-in-not-reused" ||
-		!burst && prop == "C01" && rule == "bound-key-not-on-home")) {
+		!burst && prop == "C01" && rule == "bound-key-not-on-home" ||
+		!burst && prop == "C09" && rule == "rr-not-cyclic")) {
 		// degraded serial runs (a live connection was shut down under the pool):
 		// C04 quantifies over "shutdowns in any order", its callback-level clauses
 		// stay judged; so do C20's address clauses (a connection that joins the pool
@@ -266,6 +268,16 @@ func (m *Model) vAlwaysOr(degraded bool, prop, rule, facts, msg string, op int) 
 	m.vAlways(prop, rule, facts, msg, op)
 }
 
+func (m *Model) noneGone() bool {
+	for _, ch := range m.chans {
+		if ch.gone {
+			return false
+		}
+	}
+	return len(m.chans) > 0
+}
+
+//go:norace
 func (m *Model) allReady() bool {
 	if len(m.chans) == 0 {
 		return false
@@ -533,11 +545,25 @@ func (m *Model) opStart(ev Event) {
 				ch.state = connectivity.Ready
 				// a channel whose connection had been shut down under the pool and that
 				// was refreshed through a superseded picker is a pool member again
-				ch.gone = false
+				if ch.gone {
+					ch.gone = false
+					m.epoch++ // the pool's composition changed (round-robin cycle, C09)
+				}
 				ch.k[0]++
 				ch.k[1]++
+				ch.kLo[0]++
+				ch.kLo[1]++
 				ch.lastResp[0] = ev.At
 				ch.de[0] = 0
+				for _, pd := range m.pds {
+					if pd.ch == ch && pd.resp {
+						// a response of this channel is being delivered (its completion
+						// callback has not returned): the library may count the takeover
+						// before it or after it
+						ch.kLo[0], ch.kLo[1] = 0, 0
+						m.probe("response_overlaps_takeover")
+					}
+				}
 				m.probe("refresh_swap")
 				m.afterReadyChange(ch)
 			}
@@ -636,6 +662,9 @@ func (m *Model) newSC(ev Event) {
 			}
 			if n == 257 {
 				m.probe("pool_reached_257_channels")
+			}
+			if n == 513 {
+				m.probe("pool_reached_513_channels")
 			}
 		}
 		if m.cfg.min <= m.cfg.max && m.poolSize() > m.cfg.max {
@@ -1082,6 +1111,14 @@ func (m *Model) pickReturn(ev Event) {
 		if m.track && cm.rr {
 			m.rrBurst = append(m.rrBurst, rrPick{call: c.ID, inv: cm.invSeq, ret: ev.Seq, ch: placedCh})
 		}
+		if m.degraded && cm.rr && placedCh >= 0 && !(m.s != nil && m.s.plan.Concurrent && m.s.conc) && m.noneGone() && cm.rrEpoch == m.epoch {
+			// degraded serial run in which every channel that was shut down has
+			// rejoined (its pending replacement took over): the pool is what it was,
+			// and consecutive BIND calls walk it in creation order (same epoch: the
+			// composition has not changed since this pick started)
+			m.probe("degraded_rr_cycle_judged")
+			m.rrReturnCycle(c, cm, placedCh, ev)
+		}
 		if placedCh >= 0 {
 			cm.ch = placedCh
 			cm.placed = true
@@ -1232,6 +1269,13 @@ func (m *Model) rrReturn(c *Call, cm *callM, placedCh int, ev Event) {
 	if ctxEnded && ch.state != connectivity.Ready {
 		m.probe("rr_returned_on_ctx_end")
 	}
+	m.rrReturnCycle(c, cm, placedCh, ev)
+}
+
+// rrReturnCycle: the cyclic-order clause alone.
+//
+//go:norace
+func (m *Model) rrReturnCycle(c *Call, cm *callM, placedCh int, ev Event) {
 	n := cm.rrN
 	for _, o := range m.rrSeq {
 		if o.epoch != cm.rrEpoch || n == 0 {
@@ -1399,6 +1443,7 @@ func (m *Model) PredictRR(cm *callM) (int, bool) {
 type donePending struct {
 	must    [2]bool
 	ambig   bool // the statement does not decide this completion under any reading (start == last response)
+	resp    bool // counts as a response (anything but a client-side deadline)
 	ch      *chanM
 	call    int
 	detect  bool
@@ -1437,7 +1482,17 @@ func (m *Model) doneInvoke(ev Event) {
 		case !clientDE:
 			ch.lastResp[v] = now
 			ch.de[v] = 0
-			ch.k[v] = 0
+			ch.k[v], ch.kLo[v] = 0, 0
+			pd.resp = true
+			if m.op != nil && m.op.swapCh == ch.idx {
+				// delivered while the report that made the replacement take over is
+				// still being processed: response-then-takeover (k = 1) is as legal
+				// an order as takeover-then-response (k = 0)
+				ch.k[v] = 1
+				if v == 0 {
+					m.probe("response_overlaps_takeover")
+				}
+			}
 			pd.must[v] = false
 		case cm.start < ch.lastResp[v]:
 			pd.must[v] = false
@@ -1449,6 +1504,9 @@ func (m *Model) doneInvoke(ev Event) {
 			win := m.cfg.ums << uint(ch.k[v])
 			if ch.de[v] >= m.cfg.ucalls && now-ch.lastResp[v] > win && !ch.refreshing {
 				pd.must[v] = true
+			} else if ch.kLo[v] < ch.k[v] && ch.de[v] >= m.cfg.ucalls && now-ch.lastResp[v] > m.cfg.ums<<uint(ch.kLo[v]) && !ch.refreshing {
+				pd.ambig = true // due under one legal order of an overlapped response and takeover, not under the other
+				m.probe("refresh_rule_undecided_after_overlap")
 			}
 		}
 	}
